@@ -162,11 +162,19 @@ class Visitor(_BaseVisitor[T], abc.ABC):
     for v in self.extensions.before_visit + self.extensions.inner_visit:
       v.depart(ob)
     
+    pruning = None
     if not extensions_only:
-      super().depart(ob)
+      try:
+        super().depart(ob)
+      except self._TreePruningException as ex:
+        # like in visit(): the extensions that entered the node leave it before the exception goes on
+        pruning = ex
 
     for v in self.extensions.after_visit + self.extensions.outter_visit:
       v.depart(ob)
+
+    if pruning:
+      raise pruning
 
   def walkabout(self, ob: T) -> None:
     """
@@ -202,7 +210,13 @@ class Visitor(_BaseVisitor[T], abc.ABC):
           pass
     except self.SkipChildren:
       pass
-    self.depart(ob, extensions_only=not call_depart)
+    try:
+      self.depart(ob, extensions_only=not call_depart)
+    except self.SkipSiblings as ex:
+      # raised by the main visitor's depart_ method: the node is left, its siblings are skipped
+      skip_siblings = ex
+    except self._TreePruningException:
+      pass # not applicable once the node is left; ignore
     if skip_siblings is not None:
       # let the parent's loop stop iterating over the siblings
       raise skip_siblings
